@@ -1,14 +1,101 @@
-"""Sidecar contracts for the parser side of C09 (exception safety of the format-error object; cursor helpers later)."""
+"""Sidecar contracts for the parser side of C09: exception safety (only ValueError-family errors) and termination of the
+recursive-descent parser's cursor methods and three phases, for EVERY input string.
+Parser state: the text, the cursor and the residues read so far; the modification accumulators are one opaque field (the _add_*
+methods that fill them are assumed not to touch the cursor -- listed as trusted)."""
 ALIASES = {}
-RECORDS = {'FormatError': dict(msg='Optional[str]')}
-CLASSES = {'FormatError': 'peptacular.errors:ProFormaFormatError'}
+RECORDS = {
+    'FormatError': dict(msg='Optional[str]'),
+    'ModVal': dict(kind='int', s='str'),          # Mod.val after convert_type: kind 0 = str, 1 = int, 2 = float
+    'Mod': dict(val='ModVal', mult='int'),
+    'Interval': dict(start='int', end='Optional[int]', ambiguous='bool', mods='Optional[List[Mod]]'),
+    'Parser': dict(sequence='str', position='int', length='int', _amino_acids='List[str]', _charge='Optional[int]',
+                   _current_connection='Optional[bool]', _acc='Acc'),
+}
+UNIONS = {'ModVal': {'str': 0, 'int': 1, 'float': 2}}
+PP = 'peptacular.proforma.proforma_parser:_ProFormaParser.'
+CLASSES = {'FormatError': 'peptacular.errors:ProFormaFormatError', 'Parser': 'peptacular.proforma.proforma_parser:_ProFormaParser'}
+CTORS = {'Interval': 'Interval', 'Mod': 'contract:peptacular.proforma.proforma_dataclasses:Mod'}
+GLOBALS_FROM = {'peptacular.constants': ['AMINO_ACIDS']}
+EXC_PARENTS = {'ProFormaFormatError': 'ValueError'}
+MACROS = {
+    # representation invariant of the cursor
+    'inv': (['p'], '0 <= p.position and p.position <= p.length and p.length == len(p.sequence)'),
+    # the callee may move the cursor forward only; the text and the residues read so far are untouched
+    'text_kept': (['p', 'q'], 'q.sequence == p.sequence and q.length == p.length'),
+    'only_cursor': (['p', 'q'], 'q.sequence == p.sequence and q.length == p.length and q._amino_acids == p._amino_acids and q._charge == p._charge'
+                                ' and q._current_connection == p._current_connection and q._acc == p._acc'),
+}
 C = {}
 C['peptacular.errors:ProFormaFormatError.__init__'] = dict(
-    params=dict(self='FormatError', msg='str', index='int', sequence='str'),
-    returns='None',
-    # C09: building the error must itself never fail, for ANY index the parser reports (in particular index == len(sequence),
-    # an unclosed bracket at the end of the text) -- otherwise parse() leaks an IndexError instead of the format error
-    requires=[],
-    raises={},
-    ensures=[('constructed', 'True')],
+    params=dict(self='FormatError', msg='str', index='int', sequence='str'), returns='None',
+    # C09: building the error must itself never fail, for ANY index the parser reports (in particular index == len(sequence))
+    requires=[], raises={}, ensures=[('constructed', 'True')],
 )
+C['peptacular.proforma.proforma_dataclasses:Mod'] = dict(
+    params=dict(val='str', mult='int'), returns='Mod', external=True, trusted=True,
+    bounded_by='dataclass constructor + __post_init__ (convert_type: int()/float() of the text); exercised by bounded/C01.py and C09.py',
+    ensures=[('mult', 'result.mult == mult'), ('text-kept-when-str', 'implies(result.val.kind == 0, result.val.s == val)'),
+             ('kind', '0 <= result.val.kind and result.val.kind <= 2')],
+)
+C[PP + '_end_of_sequence'] = dict(params=dict(self='Parser'), returns='bool', pure=True,
+                                  ensures=[('def', 'result == (self.position >= self.length)')])
+C[PP + '_current'] = dict(params=dict(self='Parser'), returns='str', pure=True, requires=[('inv', 'inv(self)')],
+                          raises={'IndexError': 'self.position >= self.length'},
+                          ensures=[('def', 'result == self.sequence[self.position]')])
+C[PP + '_peek'] = dict(params=dict(self='Parser'), returns='Optional[str]', pure=True, requires=[('inv', 'inv(self)')],
+                       ensures=[('none-at-end', '(result is None) == (self.position >= self.length)'),
+                                ('char', 'implies(result is not None, some(result) == self.sequence[self.position])')])
+C[PP + '_skip'] = dict(params=dict(self='Parser', n='int'), returns='None', mutates=['self'],
+                       ensures=[('moved', 'self_final.position == self.position + n'), ('frame', 'only_cursor(self, self_final)')])
+C[PP + '_parse_char'] = dict(params=dict(self='Parser'), returns='str', mutates=['self'], requires=[('inv', 'inv(self)')],
+                             raises={'IndexError': 'self.position >= self.length'},
+                             ensures=[('char', 'result == self.sequence[self.position]'), ('moved', 'self_final.position == self.position + 1'),
+                                      ('frame', 'only_cursor(self, self_final)')])
+_PROGRESS = [('inv-kept', 'inv(self_final)'), ('text-kept', 'text_kept(self, self_final)'), ('forward', 'self_final.position >= self.position')]
+C[PP + '_parse_integer'] = dict(
+    params=dict(self='Parser'), returns='int', mutates=['self'], requires=[('inv', 'inv(self)')],
+    raises={'ValueError': None}, ensures=_PROGRESS + [('frame', 'only_cursor(self, self_final)')],
+    invariants={0: [('inv', 'inv(self)'), ('frame', 'only_cursor(old(self), self)'), ('forward', 'self.position >= old(self).position')]},
+    decreases={0: 'self.length - self.position'},
+)
+C[PP + '_parse_modification'] = dict(
+    params=dict(self='Parser', opening_bracket='str', closing_bracket='str'), returns='Mod', mutates=['self'],
+    requires=[('inv', 'inv(self)'), ('at-a-bracket', 'self.position < self.length')],
+    raises={'ValueError': None},
+    ensures=_PROGRESS + [('progress', 'self_final.position > self.position'), ('frame', 'only_cursor(self, self_final)')],
+    invariants={0: [('inv', 'inv(self)'), ('frame', 'only_cursor(old(self), self)'), ('forward', 'self.position > old(self).position')],
+                1: [('inv', 'inv(self)'), ('frame', 'only_cursor(old(self), self)'), ('forward', 'self.position > old(self).position')]},
+    decreases={0: 'self.length - self.position', 1: 'self.length - self.position'},
+)
+C[PP + '_parse_modifications'] = dict(
+    params=dict(self='Parser', opening_bracket='str', closing_bracket='str'), returns='List[Mod]', mutates=['self'],
+    locals=dict(mods='List[Mod]'),
+    requires=[('inv', 'inv(self)')], raises={'ValueError': None},
+    ensures=_PROGRESS + [('frame', 'only_cursor(self, self_final)'),
+                         ('progress-at-bracket', 'implies(self.position < self.length and self.sequence[self.position] == opening_bracket,'
+                                                 ' self_final.position > self.position)')],
+    invariants={0: [('inv', 'inv(self)'), ('frame', 'only_cursor(old(self), self)'), ('forward', 'self.position >= old(self).position'),
+                    ('progress', 'implies(_k0 > 0, self.position > old(self).position)')]},
+    decreases={0: 'self.length - self.position'},
+)
+# accumulator methods: assumed not to touch the cursor (bodies only append to / create the accumulator lists); the three decorated
+# with _validate_single_mod_multiplier may raise ValueError
+for _name, _pty, _raises in (('_add_static_mod', 'Mod', True), ('_add_isotope_mod', 'Mod', True), ('_add_labile_mod', 'Mod', False),
+                             ('_add_unknown_mod', 'List[Mod]', False), ('_add_nterm_mod', 'List[Mod]', False),
+                             ('_add_cterm_mod', 'List[Mod]', False), ('_add_internal_mod', 'List[Mod]', False),
+                             ('_add_interval', 'Interval', False), ('_add_charge_adducts', 'List[Mod]', True)):
+    C[PP + _name] = dict(params=dict(self='Parser', **{('interval' if _name == '_add_interval' else 'mod'): _pty}), returns='None', mutates=['self'],
+                         trusted=True, bounded_by='three-line accumulator appenders; exercised by every bounded C01/C09 case',
+                         raises=({'ValueError': None} if _raises else {}),
+                         ensures=[('cursor-untouched', 'self_final.sequence == self.sequence and self_final.position == self.position and '
+                                   'self_final.length == self.length and self_final._amino_acids == self.._amino_acids'.replace('..', '.'))])
+_PHASE = dict(
+    params=dict(self='Parser'), returns='None', mutates=['self'], requires=[('inv', 'inv(self)')], raises={'ValueError': None},
+    ensures=_PROGRESS,
+)
+_PH_INV = [('inv', 'inv(self)'), ('text', 'text_kept(old(self), self)'), ('forward', 'self.position >= old(self).position')]
+C[PP + '_parse_sequence_start'] = dict(_PHASE, invariants={0: _PH_INV, 1: _PH_INV + [('cursor-fixed-while-storing', 'self.position == self_at1.position')]},
+                                       decreases={0: 'self.length - self.position'})
+C[PP + '_parse_sequence_middle'] = dict(_PHASE, invariants={0: _PH_INV}, decreases={0: 'self.length - self.position'},
+                                        locals=dict(dummy_interval='Optional[Tuple[int,Optional[int],bool,Optional[List[Mod]]]]'))
+C[PP + '_parse_sequence_end'] = dict(_PHASE, invariants={0: _PH_INV}, decreases={0: 'self.length - self.position'})
